@@ -100,6 +100,10 @@ def freeze(v):
         return ("§s",) + tuple(sorted((freeze(x) for x in v), key=repr))
     if v is None or isinstance(v, (str, int, float, bool, bytes)):
         return v
+    fields = getattr(type(v), "__labsim_fields__", None)
+    if fields is not None:
+        # instance of a generated @datasetclass: its members as evaluated
+        return ("§dsclass", type(v).__name__) + tuple((nm, freeze(getattr(v, nm, "§unset"))) for nm in fields)
     if callable(v):
         return ("§callable", getattr(v, "__name__", type(v).__name__))
     return ("§obj", type(v).__name__, repr(v))
